@@ -291,3 +291,43 @@ PROPERTIES = {
                        "relation by canonical linear atoms, truth tables and exhaustive weak-ordering enumeration.",
     },
 }
+
+# clauses decided by rules that were added to a property's rule list after the rounds of independent seeded changes
+# (DESIGN 10.7, 10.10, 10.12); appended to the level text of the manifest
+LEVEL_TEXT_ADDENDA = {
+    "C05": " Also: nothing beyond the documented groups is asserted by initialize() (R-STREAM-EXACT: task / resource / constraint / "
+           "indicator / buffer drains, end <= horizon, work amount, non-overlap, buffer encoding, weighted objective); nothing an "
+           "earlier call asserted is left on the solver's stack (R-PUSH-POP, R-SCOPED-ASSERT); every verdict returned by check_sat "
+           "is the result of a check() made in the same call (R-CHECK-FRESH).",
+    "C06": " Also: a test of a time against a constant is a scheduled-ness test and must have the threshold `t >= 0` / `t <= -1`; "
+           "the work-amount assertion is under the scheduled guard (R-WORK-AMOUNT).",
+    "C07": " Also: with z3.Optimize every objective is handed to the handle in its own direction, the equivalent weighted one in "
+           "weight mode and each declared one otherwise (R-OBJ-HANDED); the makespan objective is the horizon variable, which bounds "
+           "every task end (R-HORIZON).",
+    "C08": " Also: the horizon the utilisation divides by is the horizon delivered with the solution (R-HORIZON-REPORT), and the "
+           "horizon variable bounds every task end (R-HORIZON: makespan).",
+    "C10": " Also: a constraint asserts into its own assertion list only (R-OWN-ASSERTIONS); the force-N cardinalities are decided "
+           "semantically over (count, n, size).",
+    "C11": " Also: the stored busy pair is tied to the task span with delay-in / early-out (R-BUSY-BIND), every task end is "
+           "asserted <= the horizon variable (R-HORIZON), an unscheduled optional task has start, end and duration pinned to its "
+           "negative point (R-SET-ASSERTIONS).",
+    "C12": " Also: answering methods assert only inside pushed scopes and pop them all (R-SCOPED-ASSERT, R-PUSH-POP), an "
+           "unscheduled task has one representation (R-SET-ASSERTIONS), verdicts are fresh (R-CHECK-FRESH), and nothing beyond the "
+           "documented groups is asserted at initialisation (R-STREAM-EXACT).",
+    "C13": " Also: R-SCOPED-ASSERT, the blocking clause (R-BLOCK-CLAUSE), a fresh solver handle on every initialize() "
+           "(R-OPT-WIRING) and fresh verdicts (R-CHECK-FRESH).",
+    "C14": " Also: no accumulator is read inside the loop that fills it (R-ORDER-PREFIX); no process-wide state: module-level "
+           "objects built by a call and used in functions, class attributes written at run time, `global` statements "
+           "(R-NO-MODULE-STATE).",
+    "C15": " Also: R-OBJ-HANDED (see C07).",
+    "C16": " Also: only `indent` and the exclusion of `problem` may be passed to the JSON dump; the exported SMT-LIB stack is the "
+           "problem only if nothing is left on it (R-PUSH-POP, R-SCOPED-ASSERT).",
+    "C17": " Also: the task-view bar is (start, duration) and duration == end - start by the way build_solution extracts them "
+           "(R-EXTRACT).",
+    "C18": " Also: no rejection test reads the busy dict of a possibly cumulative resource itself (R-UNION-EXH on rejection tests).",
+    "C19": " Also: the reader side on the extracted IR of solve(): every mapped label of the unsat core is printed, only `label in "
+           "map` and a 'not already listed' test may filter (R-CORE-COMPLETE); a constraint asserts into its own list only "
+           "(R-OWN-ASSERTIONS).",
+}
+for _k, _v in LEVEL_TEXT_ADDENDA.items():
+    PROPERTIES[_k]["level_text"] = PROPERTIES[_k]["level_text"] + _v
